@@ -100,6 +100,10 @@ RemFail == IsEv("rem") /\ ~Mem(S, E.v) /\ Fails({"ValueError"})
 MemEv == IsEv("mem") /\ E.exc = "" /\ (Mode = "seq" => E.r = (IF Mem(S, E.v) THEN 1 ELSE 0)) /\ Upd(S)
 Concat == IsEv("concat") /\ E.exc = "" /\ Upd(S \o q[E.src])
 ConcatV == IsEv("concatv") /\ E.exc = "" /\ Upd(S \o E.vals)
+(* the operand is another kind of iterable (Tree, Table, Slice, Filter) over the same element type: exactly what it yields *)
+(* (E.vals = its own forward iteration) arrives, in that order                                                            *)
+AssignIt == IsEv("assignit") /\ E.exc = "" /\ Upd(E.vals)
+ConcatIt == IsEv("concatit") /\ E.exc = "" /\ Upd(S \o E.vals)
 ResizeOk == /\ IsEv("resize") /\ Resized(K, S, E.n, 0).ok /\ E.exc = ""
             /\ Upd(Resized(K, S, E.n, E.zero).s)
 ResizeFail == IsEv("resize") /\ ~Resized(K, S, E.n, 0).ok /\ Fails({"FormatError"})
@@ -127,7 +131,7 @@ Expected(w) ==
 Bad == IsEv("bad") /\ Fails(Expected(E.what))
 
 Next == \/ Reset \/ End \/ New \/ Push \/ PushSame \/ PopOk \/ PopFail \/ PushAtOk \/ PushAtFail \/ PopAtOk \/ PopAtFail
-        \/ SetOk \/ SetFail \/ GetOk \/ GetFail \/ RemOk \/ RemFail \/ MemEv \/ Concat \/ ConcatV \/ ResizeOk \/ ResizeFail
+        \/ SetOk \/ SetFail \/ GetOk \/ GetFail \/ RemOk \/ RemFail \/ MemEv \/ Concat \/ ConcatV \/ AssignIt \/ ConcatIt \/ ResizeOk \/ ResizeFail
         \/ SortEv \/ SortUnsupported \/ SortByGt \/ SortByUnsupported \/ Assign \/ Copy \/ Del \/ Bad
 
 Spec == Init /\ [][Next]_vars
